@@ -10,20 +10,10 @@ TB = ("Trusted: Lean 4.33 kernel (axioms propext, Classical.choice, Quot.sound o
       "the translator harness/translate and the correspondence harness; tree-sitter-nix as independent reader; "
       "the SPEC definitions named in Props/{pid}.lean. ")
 
-CLAIMED = {
-    "C12": dict(
-        text="Lean theorems over all List Char: addressable (parse . render = id for every list of names), "
-             "faithful_writing (Nix decodes the written token to exactly the name, so no live ${), roundtrip, "
-             "bare_segments_are_identifiers (no junk accepted bare), escape table/identifier class/keyword set "
-             "re-extracted from the Python source and proved equal to the model's (decide). The model is tied by "
-             "correspondence of _parse_npath/_format_attr_name/_escape_nix_string/_split_attrpath on every string "
-             "<= 3 (quick) / 4 (thorough) over a 17-class alphabet. One clause (one attribute per Nix name) is "
-             "false of the code: negation proved (cex_spelling), replayed, listed as known finding.",
-        design="8/C12",
-        note=TB + "Modelled, not verified: CPython str/regex semantics of the four functions (checked by correspondence).",
-        technique="Lean 4 proof (induction over List Char) + generated tables + differential correspondence",
-    ),
-}
+CLAIMED = {}
+for _f in sorted((ROOT / "tools" / "manifest.d").glob("C*.json")):
+    _c = json.loads(_f.read_text())
+    CLAIMED[_c["property_id"]] = _c
 
 REASON_PENDING = "not yet built in this round: the Lean model and check for this property are still to be written (see DESIGN.md section 13)"
 
@@ -39,7 +29,7 @@ def main():
             "replay_cmd_template": f"./check {pid} --replay {{path}}",
             "engine": "nima-lean",
             "level_claimed": {"category": "proof", "text": c["text"], "design_ref": c["design"]},
-            "level_note": c["note"].replace("{pid}", pid),
+            "level_note": c["note"].replace("{pid}", pid) if c["note"].startswith("Trusted") else TB.replace("{pid}", pid) + c["note"],
             "technique": c["technique"],
         })
     man = {
